@@ -628,7 +628,12 @@ def run_case(case, strace=True, timeout=60, binary=None):
                 else:
                     sc.write(rel, data)
             for d in case.get("dirs", []):
-                os.makedirs(os.path.join(sc.root, d), exist_ok=True)
+                if d.startswith(HOME_PREFIX):
+                    os.makedirs(os.path.join(sc.home, d[len(HOME_PREFIX):]), exist_ok=True)
+                elif d.startswith(XDG_PREFIX):
+                    os.makedirs(os.path.join(sc.xdg, d[len(XDG_PREFIX):]), exist_ok=True)
+                else:
+                    os.makedirs(os.path.join(sc.root, d), exist_ok=True)
             for rel, target in (case.get("links") or {}).items():
                 p = os.path.join(sc.root, rel)
                 os.makedirs(os.path.dirname(p), exist_ok=True)
